@@ -2,7 +2,7 @@
 
 request : `c17 <skip;count;ts_start;ts_end> <no_count_types> <filter string> <ev|ev|…>`
           ev   = `uid;ph;ts;dur;name;top;args;attr`   dict = `k~T~v&k~T~v` (T = s: str, n: other scalar with its
-          `str()` rendering);  `-` = absent, `%00` = empty string / empty dict / no events, `%20` = blank (filter string only)
+          `str()` rendering);  `-` = absent, `%00` = empty string / empty dict / no events, `%20` = blank
 answer  : `out=<uid;ph;name;args>|… err=<none|key|type>`
         | `flags=<0/1…>`  for `c17 flags <limits> <nct> <events>` (the limiter alone)
 -/
@@ -12,8 +12,8 @@ import AiuVerif.Model.Limit
 namespace AiuVerif.Drv.C17
 open AiuVerif AiuVerif.Limit
 
-def str (s : String) : String := if s = "%00" then "" else s
-def showStr (s : String) : String := if s = "" then "%00" else s
+def str (s : String) : String := if s = "%00" then "" else s.replace "%20" " "
+def showStr (s : String) : String := if s = "" then "%00" else s.replace " " "%20"
 
 def opt {α : Type} (f : String → Option α) (s : String) : Option (Option α) :=
   if s = "-" then some none else (f s).map some
